@@ -210,8 +210,28 @@ def analyse(F, struct):
     D = Deg()
     init = a.init_terms
     items = []
+
+    def numeric_path(p):
+        """only f64-carrying state takes part (integer cursors, counters, periods and flags are dimensionless by type)"""
+        parts = p.split(".")[1:]
+        s_ = struct
+        ty = None
+        for name in parts:
+            if name.startswith("@") or name.isdigit():
+                continue
+            fs = F.struct_fields(s_) or []
+            fd = [f for f in fs if f["name"] == name]
+            if not fd:
+                return True
+            ty = fd[0]["ty"]
+            if ty.get("k") == "adt" and ty.get("krate") == F.d["crate"]:
+                s_ = ir.short(ty["path"])
+        return ty is None or "f64" in ty["s"]
+
     for p, t in init.items():
         if isinstance(t, tuple) and t and t[0] == "adt":
+            continue
+        if not numeric_path(p):
             continue
         items.append(("init " + p, ("pre", p), t))
     outs = {}
@@ -221,6 +241,8 @@ def analyse(F, struct):
                 continue
             for p, leaf in invariants.flatten(t, k, {}).items():
                 if isinstance(leaf, tuple) and leaf and leaf[0] == "adt":
+                    continue
+                if not numeric_path(p):
                     continue
                 items.append(("%s: %s'" % (lab, p), ("pre", p), leaf))
         if fn.trait_short == "Next":
